@@ -43,7 +43,8 @@ MEAS = ["Z0", "probs01", "X0varZ1"]
 SPECIAL = ["mcm-analytic", "mcm-shots", "broadcast", "hamiltonian", "sum-obs", "noncommuting", "snapshot", "trainable-subset",
            "shot-vector", "sample-counts", "cancel", "merge", "commute", "fusion", "swaps", "gp-barrier", "qubit-unitary", "ae",
            "clifford-t", "cnots", "rz-cnot", "wirecut", "wirecut-mc", "toffoli-pattern", "template", "stateprep", "state", "dm",
-           "symbolic", "string-wires", "rot-params", "empty", "prod-obs", "zz-hamiltonian", "rpt-pattern"]
+           "symbolic", "string-wires", "rot-params", "empty", "prod-obs", "zz-hamiltonian", "rpt-pattern",
+           "wireless-probs", "wireless-sample", "wireless-counts"]
 
 EXTRA_TRANSFORMS = ["pennylane.transforms.zx.optimize_t_count", "pennylane.transforms.zx.push_hadamards",
                     "pennylane.transforms.zx.reduce_non_clifford", "pennylane.transforms.zx.todd"]
@@ -154,8 +155,20 @@ def recipe(short, qp):
 
 
 # decompose is registered twice (qp.decompose and devices.preprocess.decompose re-exported by io.to_openqasm)
-def recipe_for(qname, qp):
+VARIANTS = {"transpile": 2, "decompose": 2, "split_non_commuting": 2, "insert": 2}
+
+
+def recipe_for(qname, qp, variant=0):
     short = qname.rsplit(".", 1)[1]
+    if variant == 1:  # second argument set for transforms whose optional arguments open another code path
+        if short == "transpile":
+            return {"coupling_map": [(0, 1), (1, 2), (2, 3)], "device": qp.device("default.qubit", wires=4)}
+        if short == "decompose" and not (qname.endswith("to_openqasm.decompose") or qname.endswith("preprocess.decompose")):
+            return {"gate_set": {"RX", "RY", "RZ", "CNOT", "Hadamard", "S", "GlobalPhase"}, "max_expansion": 1}
+        if short == "split_non_commuting":
+            return {"grouping_strategy": "wires"}
+        if short == "insert":
+            return {"op": qp.PhaseDamping, "op_args": 0.1, "position": "start", "before": True}
     if qname.endswith("to_openqasm.decompose") or qname.endswith("preprocess.decompose"):
         return {"stopping_condition": lambda op: op.name in ("RX", "RY", "RZ", "CNOT", "Hadamard", "S", "PauliX", "MidMeasureMP")}
     return recipe(short, qp)
@@ -187,6 +200,13 @@ def build_tape(tspec):
         return t
     if name == "broadcast":
         return QS([qp.RX(np.array([0.1, 0.2, 0.3]), 0), qp.CNOT([0, 1])], Z0)
+    if name.startswith("wireless-"):  # measurements written without wires; only gates no pass needs to decompose
+        ops_ = [qp.RX(G, 0), qp.CNOT([0, 1]), qp.CNOT([0, 2]), qp.RX(G2, 2)]
+        if name == "wireless-probs":
+            return QS(ops_, [qp.probs()])
+        if name == "wireless-sample":
+            return QS(ops_, [qp.sample()], shots=5)
+        return QS(ops_, [qp.counts()], shots=5)
     if name == "hamiltonian":
         return QS([qp.RX(G, 0), qp.CNOT([0, 1])], [qp.expval(qp.Hamiltonian([0.5, 2.0], [qp.X(0), qp.Z(0) @ qp.Z(1)]))])
     if name == "sum-obs":
@@ -372,7 +392,7 @@ def check(spec):
         return bad(f"input-mutated:execute:{d[0]}", d, "unchanged")
 
     def apply():
-        kw = recipe_for(qname, qp)
+        kw = recipe_for(qname, qp, spec.get("variant", 0))
         try:
             out = tr(tape, **kw)
             if not (isinstance(out, tuple) and len(out) == 2 and callable(out[1])):
@@ -433,6 +453,7 @@ def run(ctx):
         names = [n for n in names if n.rsplit(".", 1)[1] in ctx.only.split(",")]
     tapes = tape_specs(ctx.quick)
     specs = [{"transform": n, "tape": t} for n in names for t in tapes]
+    specs += [{"transform": n, "tape": t, "variant": v} for n in names for v in range(1, VARIANTS.get(n.rsplit(".", 1)[1], 1)) for t in tapes]
     ctx.enumerate(specs, fn="check", axis="transform x tape", chunk=8)
     import pennylane as qp
 
